@@ -303,6 +303,15 @@ def build(root: str) -> dict[str, list[list[str]]]:
                     shapes.setdefault('tests', {})[q] = sorted(t)
                 if c:
                     shapes.setdefault('compares', {})[q] = sorted(c)
+    # callee -> style when every call site of the inventory agrees (used for code outside the inventory)
+    glob_: dict[str, list] = {}
+    bad: set[str] = set()
+    for cs in shapes.get('calls', {}).values():
+        for nm, st in cs.items():
+            if nm in glob_ and glob_[nm] != st:
+                bad.add(nm)
+            glob_[nm] = st
+    shapes['calls_global'] = {k: v for k, v in glob_.items() if k not in bad}
     return out
 
 
@@ -317,17 +326,22 @@ def table() -> dict[str, list[list[str]]]:
             with open(KNOWN) as fh:
                 d = json.load(fh)
                 _TABLE = d['functions']
-                _SHAPES = {'tests': d.get('tests', {}), 'compares': d.get('compares', {}), 'private': d.get('private', {}), 'calls': d.get('calls', {}), 'augs': d.get('augs', {}), 'comps': d.get('comps', {})}
+                _SHAPES = {'tests': d.get('tests', {}), 'compares': d.get('compares', {}), 'private': d.get('private', {}), 'calls': d.get('calls', {}), 'augs': d.get('augs', {}), 'comps': d.get('comps', {}), 'calls_global': d.get('calls_global', {})}
         except FileNotFoundError:
             _TABLE = {}
     return _TABLE
 
 
+def _kind(sig: str) -> str:
+    k = sig.split(':', 1)[0].split('[')[0]
+    return 'iter' if k in ('for', 'comp') else k        # a loop variable and a comprehension variable are the same kind of binding
+
+
 def _sim(a: str, b: str) -> float:
     if a == b:
         return 1.0
-    ka, kb = a.split(':', 1)[0], b.split(':', 1)[0]
-    if ka.split('[')[0] != kb.split('[')[0]:
+    ka, kb = _kind(a), _kind(b)
+    if ka != kb:
         return 0.0
     r = difflib.SequenceMatcher(None, a, b, autojunk=False).ratio()
     return r if r >= 0.55 else 0.0
@@ -362,7 +376,7 @@ def _align(known: list[str], cur: list[str]) -> list[tuple[int, int]]:
     pa = pb = 0
     for a, b in out + [(n, m)]:
         ga, gb = list(range(pa, a)), list(range(pb, b))
-        if ga and len(ga) == len(gb) and all(known[x].split(':', 1)[0].split('[')[0] == cur[y].split(':', 1)[0].split('[')[0] for x, y in zip(ga, gb)):
+        if ga and len(ga) == len(gb) and all(_kind(known[x]) == _kind(cur[y]) for x, y in zip(ga, gb)):
             full += list(zip(ga, gb))
         if a < n:
             full.append((a, b))
@@ -376,7 +390,7 @@ class _Rename(ast.NodeTransformer):
 
     def visit_Name(self, n: ast.Name) -> ast.AST:  # noqa: N802
         if n.id in self.mapping:
-            return ast.copy_location(ast.Name(id=self.mapping[n.id], ctx=n.ctx), n)
+            n.id = self.mapping[n.id]       # in place: position / provenance marks of the node are kept
         return n
 
     def _scope(self, fn):  # noqa: ANN001, ANN202
@@ -410,17 +424,35 @@ class _Rename(ast.NodeTransformer):
         return self._scope(n)
 
 
+def restore_function(q: str, node: ast.AST, log: list[str]) -> None:
+    """All inventory-based steps for one function (used again after helper expansion changed its body)."""
+    tab = table()
+    _restore_names(q, node, tab, log)
+    _restore_shapes(q, node, log)
+    if q in tab or q in _inventory():
+        _inline_new_temps(q, node, {k[0] for k in tab.get(q, [])}, log)
+
+
 def restore(tree: ast.Module, modname: str, log: list[str]) -> None:
     tab = table()
     if not tab:
         return
     for q, node in list(_functions(tree, modname)):
+        _restore_names(q, node, tab, log)
+    for q, node in list(_functions(tree, modname)):
+        _restore_shapes(q, node, log)
+        if q in tab or q in _inventory():
+            _inline_new_temps(q, node, {k[0] for k in tab.get(q, [])}, log)
+
+
+def _restore_names(q: str, node: ast.AST, tab: dict, log: list[str]) -> None:
+    if True:
         known = tab.get(q)
         if not known:
-            continue
+            return
         cur = bindings(node)
         if [n for n, _s in cur] == [k[0] for k in known]:
-            continue
+            return
         known_names = {k[0] for k in known}
         cur_names = {n for n, _s in cur}
         all_names = {x.id for x in ast.walk(node) if isinstance(x, ast.Name)} | _params(node)
@@ -438,10 +470,6 @@ def restore(tree: ast.Module, modname: str, log: list[str]) -> None:
             r = _Rename(mapping)
             node.body = [r.visit(st) for st in node.body]
             log.append(f'{q}: locals {sorted(mapping.items())} restored to their inventory names')
-    for q, node in list(_functions(tree, modname)):
-        _restore_shapes(q, node, log)
-        if q in tab or q in _inventory():
-            _inline_new_temps(q, node, {k[0] for k in tab.get(q, [])}, log)
 
 
 _INV: set[str] | None = None
@@ -531,7 +559,8 @@ def _inline_new_temps(q: str, fn: ast.AST, known_names: set[str], log: list[str]
 
 def _restore_call_styles(q: str, node: ast.AST, log: list[str]) -> None:
     """N9: positional / keyword style of calls to package functions, as recorded for the inventory function."""
-    rec = _SHAPES.get('calls', {}).get(q)
+    rec = dict(_SHAPES.get('calls_global', {}))
+    rec.update(_SHAPES.get('calls', {}).get(q) or {})
     if not rec or not _SIGS:
         return
     n_fix = 0
@@ -553,10 +582,16 @@ def _restore_call_styles(q: str, node: ast.AST, log: list[str]) -> None:
         if any(k.arg in bound for k in n.keywords):
             continue
         bound.update({k.arg: k.value for k in n.keywords})
-        if any(p_ not in bound for p_ in ps[:npos]) or sorted(bound) != sorted(set(ps[:npos]) | set(kws)):
-            continue       # a different set of arguments: not a mere change of style
-        n.args = [bound[p_] for p_ in ps[:npos]]
-        n.keywords = [ast.keyword(arg=k_, value=bound[k_]) for k_ in kws]
+        if any(p_ not in bound for p_ in ps[:npos]):
+            continue
+        # the recorded leading parameters positionally, the recorded keywords in their order, then any others
+        rest = [k_ for k_ in names if k_ in bound and k_ not in ps[:npos] and k_ not in kws]
+        new_args = [bound[p_] for p_ in ps[:npos]]
+        new_kws = [ast.keyword(arg=k_, value=bound[k_]) for k_ in kws if k_ in bound] + [ast.keyword(arg=k_, value=bound[k_]) for k_ in rest]
+        if [_u(a_) for a_ in new_args] == [_u(a_) for a_ in n.args] and [(k.arg, _u(k.value)) for k in new_kws] == [(k.arg, _u(k.value)) for k in n.keywords]:
+            continue
+        n.args = new_args
+        n.keywords = new_kws
         n_fix += 1
     if n_fix:
         log.append(f'{q}: {n_fix} call(s) restored to the inventory argument style')
@@ -687,6 +722,6 @@ if __name__ == '__main__':
     t = build(root)
     json.dump({'comment': 'locals of the inventory functions in order of first binding, with spelling-free binding signatures; '
                           'texts of branch tests and of ==/!= comparisons (kfv/localnames.py)',
-               'functions': t, 'tests': shapes.get('tests', {}), 'compares': shapes.get('compares', {}), 'private': shapes.get('private', {}), 'calls': shapes.get('calls', {}), 'augs': shapes.get('augs', {}), 'comps': shapes.get('comps', {})},
+               'functions': t, 'tests': shapes.get('tests', {}), 'compares': shapes.get('compares', {}), 'private': shapes.get('private', {}), 'calls': shapes.get('calls', {}), 'augs': shapes.get('augs', {}), 'comps': shapes.get('comps', {}), 'calls_global': shapes.get('calls_global', {})},
               open(KNOWN, 'w'), indent=0, sort_keys=True)
     print(f'{len(t)} functions, {sum(len(v) for v in t.values())} locals')
